@@ -15,3 +15,32 @@ package common
 //@   requires !errorsAs(err, "*core.ResponseStartedError")
 //@   ensures err != nil && errorsAs(err, "net.Error") && !errorsIs(err, context.Canceled) && !errorsIs(err, context.DeadlineExceeded) && !errorsIs(err, io.EOF) ==> connErr(res)
 //@   ensures err != nil && !connErr(err) && unwrap(res) == nil ==> !connErr(res)
+
+// ---- C16: upstream URLs stay on the configured endpoint
+// hasDotSeg(p): some "/"-separated segment of p is "." or ".." (proved equal to containsDotDot).
+//@ spec func hasDotSeg(p string) bool = exists di int :: 0 <= di && di < len(splitOf(p, "/")) && (splitOf(p, "/")[di] == ".." || splitOf(p, "/")[di] == ".")
+//@ spec func encDotSeg(p string) bool = contains(p, "%") && (purecall("net/url.PathUnescape#1", "error", p) != nil || hasDotSeg(purecall("net/url.PathUnescape", "string", p)))
+// trusted facts about path.Clean (std-lib): a cleaned rooted path has no dot segments, in either spelling
+//@ axiom clean_nodots: forall p string :: !hasDotSeg(pathClean(concat("/", p))) && !encDotSeg(pathClean(concat("/", p)))
+//@ axiom slash_nodots: !hasDotSeg("/") && !encDotSeg("/")
+//@ spec func stripped(p string, prefix string) string = ite(hasPrefix(p, prefix), ite(len(p) == len(prefix) || p[len(prefix)] != 47, concat("/", trimPrefix(p, prefix)), trimPrefix(p, prefix)), p)
+
+//@ func containsDotDot
+//@   property C16
+//@   loop 1 invariant forall di int :: 0 <= di && di < i$1 ==> !(splitOf(p, "/")[di] == ".." || splitOf(p, "/")[di] == ".")
+//@   ensures res == hasDotSeg(p)
+
+//@ func containsEncodedDotDot
+//@   property C16
+//@   ensures res == encDotSeg(p)
+
+//@ func BuildTargetURL
+//@   property C01 C16
+//@   requires r != nil && r.URL != nil && endpoint != nil && endpoint.URL != nil
+//@   ensures res != nil && fresh(res)
+//@   ensures res.Scheme == endpoint.URL.Scheme && res.Host == endpoint.URL.Host && res.User == endpoint.URL.User
+//@   ensures res.RawQuery == r.URL.RawQuery && res.Fragment == ""
+//@   ensures endpoint.PreservePath && endpoint.URL.Path != "" && endpoint.URL.Path != "/" ==> res.Path == pathJoin(endpoint.URL.Path, trimPrefix(ite(stripped(r.URL.Path, proxyPrefix) == "", "/", stripped(r.URL.Path, proxyPrefix)), "/"))
+//@   ensures !(endpoint.PreservePath && endpoint.URL.Path != "" && endpoint.URL.Path != "/") ==> !hasDotSeg(res.Path) || !(endpoint.URL.Path == "" || endpoint.URL.Path == "/")
+//@   ensures !(endpoint.PreservePath && endpoint.URL.Path != "" && endpoint.URL.Path != "/") && (endpoint.URL.Path == "" || endpoint.URL.Path == "/") && !hasDotSeg(stripped(r.URL.Path, proxyPrefix)) && !encDotSeg(stripped(r.URL.Path, proxyPrefix)) && stripped(r.URL.Path, proxyPrefix) != "" ==> res.Path == stripped(r.URL.Path, proxyPrefix)
+//@   uses clean_nodots slash_nodots
